@@ -108,8 +108,8 @@ Qed.
 
 (* Known defects of the unchanged tree (known_findings.d/C20.json).  The theorems below are stated for
    every OTHER entry; the check reports any entry that fails and is not listed as a VIOLATION. *)
-Definition exempt_untight : list string := ["ppl_io_wrap_string"].
-Definition exempt_undefined : list string := ["ppl_new_Linear_Expression_from_Grid_Generator"].
+Definition exempt_untight : list string := [].   (* ppl_io_wrap_string fixed (function-try-block returning a null pointer) *)
+Definition exempt_undefined : list string := [].   (* ppl_new_Linear_Expression_from_Grid_Generator restored *)
 
 Definition checked_entries : list entry := filter (fun en => negb (str_mem (e_name en) exempt_untight)) entries.
 
